@@ -20,29 +20,50 @@ OPTS = [dict(restart_after_reconnect=r, wait_before_start=w, wait_for_connection
         for r, w, c, p in itertools.product([False, True], [0, 1], [False, True], [None, 0, 3])]
 
 
-def run_hist(opts, ops, seed=0):
+PAIRS = {"blip": ("lost", "conn"), "flap": ("conn", "lost"), "restart": ("start", "start")}   # two calls without the loop running in between
+KINDS = ("plain", "catch")     # catch: the target swallows its cancellation and returns normally (as the callback of the repository's own test does)
+
+
+def run_hist(opts, ops, seed=0, threaded=False, kind="plain"):
     from xknx.core import Task, XknxConnectionState
 
-    trace = [{"op": "cfg", "restart": 1 if opts["restart_after_reconnect"] else 0, "live": 0, "new": 0, "running": 0}]
+    trace = [{"op": "cfg", "restart": 1 if opts["restart_after_reconnect"] else 0, "live": 0, "new": 0, "running": 0, "noobs": 0}]
     with virtual_world(seed) as loop:
         async def main():
             xknx, _ = make_xknx(loop)
             reg = xknx.task_registry
             reg.start()
             cm = xknx.connection_manager
+            if threaded:       # ConnectionConfig(threaded=True): state reports are handed to the main loop with call_soon_threadsafe
+                await cm.register_loop()
             cm.connection_state_changed(XknxConnectionState.CONNECTED)
+            await asyncio.sleep(0)
+            await asyncio.sleep(0)
             running = {"n": 0}
 
             async def target():
                 running["n"] += 1
                 try:
                     await asyncio.sleep(2)
+                except asyncio.CancelledError:
+                    if kind != "catch":
+                        raise
                 finally:
                     running["n"] -= 1
 
             t = Task("verif-task", target, **opts)
-            seen = set()
+            made, counted = [], [0]       # every asyncio task created on this loop; those named after the task are its instances
+
+            def factory(lp, coro, **kw):
+                tk = asyncio.Task(coro, loop=lp, **kw)
+                made.append(tk)
+                return tk
+
+            loop.set_task_factory(factory)
+            flat = []
             for op in ops:
+                flat += [(PAIRS[op][0], 1), (PAIRS[op][1], 0)] if op in PAIRS else [(op, 0)]
+            for op, noobs in flat:
                 if op == "start":
                     reg.start_task(t)
                 elif op == "remove":
@@ -59,17 +80,22 @@ def run_hist(opts, ops, seed=0):
                     await asyncio.sleep(1)
                 elif op == "t5":
                     await asyncio.sleep(5)
-                cur = t._task
-                new = 0
-                if cur is not None and id(cur) not in seen:
-                    new = 1
-                    seen.add(id(cur))
-                    keep.append(cur)
+                opname = "lost" if op == "connecting" else op if op not in ("t1", "t5") else "tick"
+                if noobs:          # the next call follows at once: nothing is observed in between
+                    trace.append({"op": opname, "live": 0, "new": 0, "running": 0, "noobs": 1})
+                    continue
+
+                def fresh():
+                    n = sum(1 for tk in made if tk.get_name() == "verif-task")
+                    was, counted[0] = counted[0], n
+                    return 1 if n > was else 0
+                new = fresh()
                 await asyncio.sleep(0)
                 await asyncio.sleep(0)
+                if threaded:
+                    new = max(new, fresh())          # the report was processed by the loop only now
                 live = [x for x in asyncio.all_tasks() if x.get_name() == "verif-task" and not x.done()]
-                trace.append({"op": "lost" if op == "connecting" else op if op not in ("t1", "t5") else "tick", "live": len(live), "new": new,
-                              "running": running["n"]})
+                trace.append({"op": opname, "live": len(live), "new": new, "running": running["n"], "noobs": 0})
             reg.stop()
             await asyncio.sleep(0)
 
@@ -89,9 +115,14 @@ def histories(ck):
             if "stop" in ops and any(o in ("start", "remove") for o in ops[ops.index("stop") + 1:]):
                 continue  # the registry is not used after stop()
             hs.append(ops)
+    # two calls in a row before the loop runs again: a short drop, a short-lived connection, a task started twice
+    for n in (1, 2):
+        for ops in itertools.product(OPS + tuple(PAIRS), repeat=n):
+            if any(o in PAIRS for o in ops) and "stop" not in ops:
+                hs.append(("start",) + ops + ("t1", "lost", "t1", "conn"))
     for _ in range(100 if ck.tier == "quick" else 2000):
         n = rnd.randrange(6, 14)
-        hs.append(tuple(rnd.choices(OPS[:2] + OPS[3:], weights=[3, 1, 3, 3, 2, 2, 2], k=n)))
+        hs.append(tuple(rnd.choices(OPS[:2] + OPS[3:] + tuple(PAIRS), weights=[3, 1, 3, 3, 2, 2, 2, 2, 2, 1], k=n)))
     return hs
 
 
@@ -106,9 +137,13 @@ def run(ck):
     for ops in hs:
         # all option combinations for short histories, a sample for the longer ones
         opts_list = OPTS if len(ops) <= 3 else rnd.sample(OPTS, 4 if ck.tier == "quick" else (8 if len(ops) == 4 else 3))
-        for opts in opts_list:
-            traces.append(run_hist(opts, ops, ck.seed))
-            meta.append((opts, ops))
+        for j, opts in enumerate(opts_list):
+            # every history also with state reports handed over from another thread and with a target that swallows its cancellation
+            for threaded, kind in ((False, "plain"),) + (((True, "plain"), (False, "catch")) if j % 4 == 0 else ()) + (((True, "catch"),) if j % 8 == 4 else ()):
+                if kind == "catch" and opts["repeat_after"] is not None:
+                    continue            # a repeating task whose target swallows cancellation cannot be stopped by anybody: not a use of the registry
+                traces.append(run_hist(opts, ops, ck.seed, threaded, kind))
+                meta.append((dict(opts, threaded=threaded, target=kind), ops))
     res = tlc.batch(ck, "core/TaskReg_Trace", traces)
     for idx, info in sorted(res.bad.items()):
         opts, ops = meta[idx]
@@ -143,7 +178,7 @@ def run(ck):
     if len(r2.bad) != len(muts) or not muts:
         raise MachineryError(f"binding self-test: {len(muts) - len(r2.bad)} of {len(muts)} corrupted traces accepted")
     ck.add(traces_validated_against_impl=res.accepted, trace_events=sum(len(t) for t in traces), histories=len(hs),
-           option_combinations=len(OPTS), selftest_corrupted_rejected=len(muts))
+           option_combinations=len(OPTS), scheduling_modes=2, target_kinds=2, selftest_corrupted_rejected=len(muts))
     ck.sample({"opts": meta[100][0], "ops": list(meta[100][1]), "trace": traces[100]})
     ck.sample({"opts": meta[-1][0], "ops": list(meta[-1][1]), "trace": traces[-1]})
 
@@ -152,7 +187,9 @@ def replay(ck, path):
     import json
 
     d = json.loads(open(path).read())["replay"]
-    t = run_hist(d["opts"], d["ops"], ck.seed)
+    o = dict(d["opts"])
+    threaded, kind = bool(o.pop("threaded", False)), o.pop("target", "plain")
+    t = run_hist(o, d["ops"], ck.seed, threaded, kind)
     res = tlc.batch(ck, "core/TaskReg_Trace", [t])
     print("trace:", t, "\nrejected at:", res.bad.get(0))
     return 1 if res.bad else 0
